@@ -247,11 +247,21 @@ impl Runtime {
 
                 let ctx = e.create_context();
                 // run the hook events
+                let state = e.state();
                 e.run_hooks(&ctx)
                     .unwrap_or_else(|err| error!("scher.initialize hooks={}", err));
 
+                // a hook can move the task on (an error taken by a catch without steps completes
+                // the task at once): that new state has been emitted by its own event already,
+                // this event has nothing left to report
+                let is_moved_on = e.state() != state;
+
                 // check task is allowed to emit message to client
-                if !e.state().is_pending() && !e.state().is_running() && !e.is_emit_disabled() {
+                if !is_moved_on
+                    && !e.state().is_pending()
+                    && !e.state().is_running()
+                    && !e.is_emit_disabled()
+                {
                     let msg = e.create_message();
                     debug!("emit_message:{msg:?}");
                     rt.emitter().emit_message(&msg);
